@@ -32,6 +32,12 @@ ALLOWED_AXIOMS = []
 
 RE_DELIM = b'\\n(?:#([0-9]+)|(##))\\n'
 RE_PREFIX = b'\\n(?:#(?:[0-9]+|#)?)?'
+# tls.py after the repair of F24: one recv(BUF_SIZE), then whatever OpenSSL still holds of the record it has decrypted
+# (select() does not see those octets); a read is then a whole TLS record, at most 16384 octets (the theorems hold for every size)
+TLS_READ = ('data = self._socket.recv(BUF_SIZE)\n'
+            'while data and self._socket.pending() > 0:\n'
+            '    data += self._socket.recv(BUF_SIZE)\n'
+            'return data')
 REF_MAX = 3000          # reference automaton is quadratic in the extracted model: only streams up to this size
 
 
@@ -63,7 +69,7 @@ def constants(ctx):
     ]
     for fn, attr in (('ssh.py', 'self._channel'), ('tls.py', 'self._socket'), ('unixSocket.py', 'self._socket')):
         items.append((fn + ' BUF_SIZE', sc[fn + '.BUF_SIZE'], 4096))
-        items.append((fn + ' _transport_read body', sc.get(fn + '._transport_read'), 'return %s.recv(BUF_SIZE)' % attr))
+        items.append((fn + ' _transport_read body', sc.get(fn + '._transport_read'), TLS_READ if fn == 'tls.py' else 'return %s.recv(BUF_SIZE)' % attr))
         items.append((fn + ' overrides run', sc.get(fn + '.overrides_run'), False))
         items.append((fn + ' bases', sc.get(fn + '.bases'), ["Name(id='Session', ctx=Load())"]))
     for name, actual, expected in items:
@@ -348,12 +354,127 @@ def session_level(ctx):
                      expected={'callbacks': case['expected'], 'errors_before_close': [], 'worker_alive_after_close': False}, actual=actual)
 
 
+# ---------------------------------------------------------------- 5. real TLS / SSH / Unix peers
+def Q():
+    from harness import c01_peers
+    return c01_peers
+
+
+PEER_WITNESSES = [       # fixed cases run first on every transport: F24 (a piece longer than BUF_SIZE, one TLS record), a hold in both versions
+    dict(base=10, msgs=['<rpc-reply message-id="1"><data>%s</data></rpc-reply>' % ('x\u00e9' * 2100), '<ok/>'], chunks=None, cut='whole', actions='s'),
+    dict(base=11, msgs=['<a>\u00e9\U0001F600</a>', '<rpc-reply message-id="2"><data>%s</data></rpc-reply>' % ('\u20acy' * 1800)],
+         chunks=[[b'<a>\xc3', b'\xa9\xf0\x9f', b'\x98\x80</a>'], None], cut='holds', actions=None),
+]
+
+def peer_witness_case(w, kind):
+    f = F()
+    base = w['base']
+    mb = [m.encode('utf-8') for m in w['msgs']]
+    if base == 11:
+        chunked = [c if c is not None else [b] for c, b in zip(w['chunks'], mb)]
+        stream, ends = f.encode11(chunked), f.ends11(chunked)
+    else:
+        stream, ends = f.encode10(mb), f.ends10(mb)
+    if w['cut'] == 'whole':
+        pieces, actions = [stream], w['actions']
+    else:
+        pieces = f.segment(stream, sorted(set([e - 1 for e in ends] + [e for e in ends[:-1]])))
+        actions = ''.join('h' if i % 2 == 0 else 's' for i in range(len(pieces)))
+    return {'level': 'peer', 'transport': kind, 'base': base, 'pieces': [p.hex() for p in pieces], 'actions': actions, 'pause_ms': 1,
+            'expected': [m.strip() if base == 10 else m for m in w['msgs']], 'n_expected': len(mb)}
+
+
+def peer_exec(case, tries=3):
+    """run + judge; a failing case is re-executed `tries` times and reported only if it fails every time"""
+    q = Q()
+    obs = q.run_inbound(case)
+    ok, what, exp, act = q.judge_inbound(case, obs)
+    flaky = None
+    if not ok:
+        for _ in range(tries):
+            obs2 = q.run_inbound(case)
+            ok2, what2, exp2, act2 = q.judge_inbound(case, obs2)
+            if ok2:
+                flaky = what; ok, obs, exp, act, what = True, obs2, exp2, act2, ''
+                break
+    return ok, what, exp, act, obs, flaky
+
+
+def peers_level(ctx):
+    import time
+    q, f, rng, quick = Q(), F(), ctx.rng, ctx.tier == 'quick'
+    res0 = q.resources()
+    t_start = time.time()
+    plan = []                                   # (case, tags)
+    kinds = ('tls', 'ssh', 'unix')
+    for kind in kinds:
+        for w in PEER_WITNESSES:
+            plan.append((peer_witness_case(w, kind), dict(size='witness', piece_kind=w['cut'], mode='witness', holds=0)))
+    per = {'tls': 14, 'ssh': 14, 'unix': 6} if quick else {'tls': 300, 'ssh': 300, 'unix': 80}
+    for kind in kinds:
+        for i in range(per[kind]):
+            size = ['tiny', 'small', 'multi', 'small', 'multi', None][i % 6]
+            plan.append(q.gen_inbound_case(rng, kind, 10 if i % 2 == 0 else 11, size))
+    done = []
+    for case, tags in plan:
+        ok, what, exp, act, obs, flaky = peer_exec(case)
+        kind, base = case['transport'], case['base']
+        if flaky:
+            ctx.note('peer-level case (%s, 1.%d) failed once and passed on re-execution: %s' % (kind, base - 10, flaky))
+        ctx.count({'level': 'peer', 'transport': kind, 'base': base, 'pieces': case['pieces'], 'actions': case['actions']}, nontrivial=True)
+        ctx.hist('level', 'peer_' + kind); ctx.hist('peer_base', '%s/1.%d' % (kind, base - 10))
+        ctx.hist('peer_piece_kind', tags['piece_kind']); ctx.hist('peer_write_mode', tags['mode']); ctx.hist('peer_size_class', tags['size'])
+        ctx.hist('peer_holds_per_case', len(obs['holds']))
+        for ck in tags.get('chunkings', []): ctx.hist('peer_chunking', ck)
+        for r in obs['reads']: ctx.hist('peer_read_octets_' + kind, q.size_bucket(len(r)))
+        ctx.hist('peer_reads_per_case', len(obs['reads']) if len(obs['reads']) < 4 else ('4-9' if len(obs['reads']) < 10 else ('10-99' if len(obs['reads']) < 100 else '100+')))
+        n = sum(len(p) for p in case['pieces']) // 2
+        ctx.hist('peer_stream_octets', '<64' if n < 64 else ('<512' if n < 512 else ('<4096' if n < 4096 else '>=4096')))
+        if ok:
+            ctx.traces += 1
+            done.append((case, obs))
+        else:
+            ctx.fail(case, 'peer level (%s session against a scripted server behind the real transport), base 1.%d: %s' % (
+                     {'tls': 'TLSSession', 'ssh': 'SSHSession', 'unix': 'UnixSocketSession'}[kind], base - 10, what), sig=None, expected=exp, actual=act)
+    # the reads the session really made, fed to the extracted model: same deliveries read by read, same parser state
+    # (the extracted 1.0 model is cubic in the message length - 0.6 s at 8 kB, 4 s at 16 kB, 26 s at 32 kB: long 1.0 streams are fed
+    # to it only up to a budget; every case is still judged by the oracle above)
+    if ctx.model and done:
+        budget, fed = (4.0 if quick else 60.0), []
+        for c, o in done:
+            n = sum(len(r) for r in o['reads'])
+            cost = 0.0 if c['base'] == 11 or n < 3000 else (n / 8000.0) ** 3 * 0.7
+            if cost > budget: continue
+            budget -= cost; fed.append((c, o))
+        ctx.extra['peer_cases_not_fed_to_model'] = len(done) - len(fed)
+        done = fed
+        outs = ctx.model.batch([[1 if c['base'] == 10 else 2, o['reads']] for c, o in done])
+        for (case, obs), mo in zip(done, outs):
+            recs = q.impl_records(case, obs)
+            mcase = {'base': case['base'], 'segs': [r.hex() for r in obs['reads']], 'via': case['transport']}
+            ctx.count(dict(mcase, level='peer_model'), nontrivial=len(obs['reads']) >= 2)
+            ctx.hist('level', 'peer_model')
+            if recs is None: continue
+            same, why = f.records_equal(mo, recs)
+            if not same:
+                ctx.disagree(mcase, mo, recs, 'model feed%d on the reads made by %s vs the session: %s' % (case['base'], case['transport'], why),
+                             theorem='C01_sim%d' % case['base'])
+    dfd, extra = q.settle_resources(res0)
+    ctx.extra['peer_cases'] = len(plan)
+    ctx.extra['peer_wall_s'] = round(time.time() - t_start, 1)
+    ctx.extra['peer_fd_delta_after_all_cases'] = dfd
+    ctx.extra['peer_threads_left_after_all_cases'] = extra
+    if dfd > 0 or extra:
+        ctx.note('peer level left %d file descriptors / threads %r behind' % (dfd, extra))
+
+
 def run(ctx):
     ctx.exhaustive = False
     parser_level(ctx)          # corpus first (inside)
     constants(ctx)
     micro(ctx)
     session_level(ctx)
+    peers_level(ctx)
     if not ctx.model:
         ctx.note('model runner missing: model comparisons skipped, oracles still ran')
 
@@ -407,6 +528,16 @@ def replay(doc):
     if 'case' not in doc:
         return F().replay_obligation(doc, ID)
     c = doc['case']
+    if c.get('level') == 'peer':
+        from vlib import paths; paths.use_repo()
+        ok, what, exp, act, obs, flaky = peer_exec(c)
+        n = sum(len(p) for p in c['pieces']) // 2
+        print('case     : %s peer, base 1.%d, %d octets written in %d pieces, actions %s' % (c['transport'], c['base'] - 10, n, len(c['pieces']), c['actions']))
+        def short(d): return {k: ([x if len(x) < 90 else x[:60] + '...(%d chars)' % len(x) for x in v] if k == 'callbacks' else v) for k, v in d.items()}
+        print('expected :', short(exp))
+        print('actual   :', short(act))
+        if not ok: print('FAILS    :', what)
+        return ok
     if c.get('level') == 'session':
         ok, what, actual = session_judge(c)
         print('case     : session level, base 1.%d, %d segments' % (c['base'] - 10, len(c['segs'])))
